@@ -395,7 +395,7 @@ def tr_expr(n: dict, cx: Ctx) -> E:
         if name in cx.gen.signatures:
             return tr_call(name, args, cx)
         raise Gap(f"call of {name}()")
-    if k == "CXXConstructExpr":
+    if k in ("CXXConstructExpr", "CXXTemporaryObjectExpr"):
         args = [a for a in n.get("inner", []) if a.get("kind") != "CXXDefaultArgExpr"]
         kind = lean_kind(ty)
         if len(args) == 1:
@@ -1275,7 +1275,10 @@ def sanitize_announce_interval (value : Int) : Int :=
     if value < kMinAnnounceInterval then
       kMinAnnounceInterval
     else
-      value""",
+      if value > kMaxAnnounceWindow then
+        kMaxAnnounceWindow
+      else
+        value""",
     "sanitize_announce_window": """
 def sanitize_announce_window (value : Int) : Int :=
   if value ≤ 0 then
